@@ -593,7 +593,9 @@ _OPT_KEYS = ["max_fun_evals", "max_iter", "tol_mesh", "tol_fun", "tol_noise", "t
              "tol_improvement", "forcing_exponent", "sloppy_improvement", "fun_eval_start",
              "n_train_min", "n_train_max", "buffer_ntrain", "gp_radius", "init_mesh_size_integer",
              "uncertainty_handling", "specify_target_noise", "noise_size", "cache_size", "min_refit_time",
-             "improvement_quantile", "force_poll_mesh", "stobads", "hedge_gamma", "random_seed"]
+             "improvement_quantile", "force_poll_mesh", "stobads", "hedge_gamma", "random_seed",
+             "remove_points_after_tries", "search_scale_success", "search_scale_incremental", "search_scale_failure",
+             "use_effective_radius", "uncertain_incumbent", "nonlinear_scaling"]
 
 
 def _optval(v):
